@@ -311,6 +311,7 @@ fn cmd_run(args: &[String]) -> i32 {
     let mut foreign: BTreeMap<&'static str, u64> = BTreeMap::new();
     let mut faults: BTreeMap<String, u64> = BTreeMap::new();
     let mut violations: Vec<serde_json::Value> = Vec::new();
+    let mut soft_violations: Vec<serde_json::Value> = Vec::new();
     let mut samples: Vec<serde_json::Value> = Vec::new();
     let mut elem_runs: BTreeMap<String, u64> = BTreeMap::new();
     let mut hasher_runs: BTreeMap<String, u64> = BTreeMap::new();
@@ -418,6 +419,14 @@ fn cmd_run(args: &[String]) -> i32 {
         if samples.len() < 2 && o.nontrivial && spec.ops.len() <= 40 {
             samples.push(serde_json::json!({"run": i, "spec": spec}));
         }
+        if let Some(a) = o.soft.as_ref() {
+            if soft_violations.len() < 2 {
+                soft_violations.push(serde_json::json!({
+                    "run": i, "class": a.class, "family": format!("{:?}", a.family), "op_index": a.op_index,
+                    "op_kind": a.op_kind, "detail": a.detail, "elem": format!("{:?}", spec.cfg.elem), "fault": serde_json::Value::Null,
+                }));
+            }
+        }
         if let Some(a) = o.violation {
             violations.push(serde_json::json!({
                 "run": i, "class": a.class, "family": format!("{:?}", a.family), "op_index": a.op_index,
@@ -437,7 +446,7 @@ fn cmd_run(args: &[String]) -> i32 {
         "runs": runs, "steps": steps, "nontrivial_runs": nontrivial_runs,
         "states": states.iter().collect::<Vec<_>>(),
         "probes": probes, "op_kinds": op_kinds, "foreign": foreign, "faults": faults,
-        "elem_runs": elem_runs, "hasher_runs": hasher_runs,
+        "elem_runs": elem_runs, "hasher_runs": hasher_runs, "soft_violations": soft_violations,
         "violations": violations, "samples": samples, "truncated": truncated,
         "wall_s": t0.elapsed().as_secs_f64(),
         "fuse_fired": ctx::with(|c| c.total_fuse_fired.to_vec()),
@@ -480,7 +489,7 @@ fn cmd_replay(args: &[String]) -> i32 {
         }
         println!("HASH {:016x} {}", h, o.transcript.len());
     }
-    match o.violation {
+    match o.violation.or(o.soft) {
         Some(a) => {
             println!("REPRODUCED property={} class={} op={}#{} detail={}", rf.property, a.class, a.op_kind, a.op_index, a.detail);
             1
@@ -532,7 +541,7 @@ fn cmd_minimize(args: &[String]) -> i32 {
     let small = mz.minimize(&rf.spec);
     // final detail from an in-process run when possible
     if !subprocess {
-        if let Some(a) = run_for_prop(prop, &small, false).violation {
+        if let Some(a) = { let o2 = run_for_prop(prop, &small, false); o2.violation.or(o2.soft) } {
             rf.detail = format!("{}#{}: {}", a.op_kind, a.op_index, a.detail);
         }
     }
